@@ -245,7 +245,12 @@ impl Expression {
 pub struct ExpressionParser {
     input: Vec<char>,
     position: usize,
+    depth: usize,
 }
+
+/// Deepest nesting of `!` / `(` the parser follows; deeper input is rejected with a
+/// parse error instead of recursing until the stack is exhausted.
+const MAX_EXPRESSION_DEPTH: usize = 64;
 
 impl ExpressionParser {
     /// Create a new parser
@@ -253,6 +258,7 @@ impl ExpressionParser {
         Self {
             input: input.chars().collect(),
             position: 0,
+            depth: 0,
         }
     }
 
@@ -335,17 +341,32 @@ impl ExpressionParser {
     fn parse_primary(&mut self) -> Result<Expression> {
         self.skip_whitespace();
 
+        if self.depth > MAX_EXPRESSION_DEPTH {
+            return Err(RuleEngineError::ParseError {
+                message: format!(
+                    "Expression nested deeper than {} levels at position {}",
+                    MAX_EXPRESSION_DEPTH, self.position
+                ),
+            });
+        }
+
         // Handle negation
         if self.peek_char() == Some('!') {
             self.consume_char();
+            let outer = self.depth;
+            self.depth = outer + 1;
             let expr = self.parse_primary()?;
+            self.depth = outer;
             return Ok(Expression::Not(Box::new(expr)));
         }
 
         // Handle parentheses
         if self.peek_char() == Some('(') {
             self.consume_char();
+            let outer = self.depth;
+            self.depth = outer + 1;
             let expr = self.parse_expression()?;
+            self.depth = outer;
             self.skip_whitespace();
             if self.peek_char() != Some(')') {
                 return Err(RuleEngineError::ParseError {
